@@ -1735,3 +1735,69 @@ package gogen
 //@ partial
 //@ assertcall Instantiate: arg_validate
 
+
+// ---------------------------------------------------------------------------
+// C02/C03/C16 — unary expression nodes on the operand stack
+
+//@ func (*TypeType).Pointer
+//@ prop C03
+//@ readonly
+//@ ensures fresh(result) && typeis(result.typ, *types.Pointer) && result.typ.(*types.Pointer).Elem() == p.typ
+
+// *x (Go spec "Address operators" / pointer types): the operand is replaced by the star expression over its
+// expression; for a pointer operand the type is the pointer's base type, for a type operand T the result is the type
+// operand *T (named pointer types, resolved through getUnderlying, are excluded by precondition)
+//@ func (*CodeBuilder).Star
+//@ prop C02 C03 C16
+//@ requires len(p.stk.data) >= 1 && p.stk.data[len(p.stk.data)-1] != nil
+//@ requires typeis(p.stk.data[len(p.stk.data)-1].Type, *types.Pointer) || typeis(p.stk.data[len(p.stk.data)-1].Type, *TypeType)
+//@ requires imp(src != nil, len(src) >= 1)
+//@ assigns p.stk.data, elems(p.stk.data)
+//@ loop 0 invariant argType == old(p.stk.data[len(p.stk.data)-1].Type)
+//@ ensures len(p.stk.data) == old(len(p.stk.data)) && forall(i, 0, len(p.stk.data) - 1, p.stk.data[i] == old(p.stk.data[i]))
+//@ ensures fresh(p.stk.data[len(p.stk.data)-1]) && typeis(p.stk.data[len(p.stk.data)-1].Val, *ast.StarExpr) && p.stk.data[len(p.stk.data)-1].Val.(*ast.StarExpr).X == old(p.stk.data[len(p.stk.data)-1].Val)
+//@ ensures imp(typeis(old(p.stk.data[len(p.stk.data)-1].Type), *types.Pointer), p.stk.data[len(p.stk.data)-1].Type == old(p.stk.data[len(p.stk.data)-1].Type).(*types.Pointer).Elem())
+//@ ensures imp(typeis(old(p.stk.data[len(p.stk.data)-1].Type), *TypeType), typeis(p.stk.data[len(p.stk.data)-1].Type, *TypeType) && typeis(p.stk.data[len(p.stk.data)-1].Type.(*TypeType).typ, *types.Pointer) && p.stk.data[len(p.stk.data)-1].Type.(*TypeType).typ.(*types.Pointer).Elem() == old(p.stk.data[len(p.stk.data)-1].Type).(*TypeType).typ)
+
+// a[i]: the two operands are replaced by the index expression over their expressions, in that order (for `any`
+// operands the map sugar may first hoist a type assertion of the operand); the result type is the element type Go
+// assigns to the operand's type (C03), or the pair (element, bool) in a two-value context; the generic-instantiation
+// form a[T] is excluded by precondition
+//@ func (*CodeBuilder).Index
+//@ prop C02 C03 C16
+//@ requires nidx == 1 && p.pkg != nil && len(p.stk.data) >= 2 && forall(i, 0, len(p.stk.data), p.stk.data[i] != nil)
+//@ requires p.stk.data[len(p.stk.data)-2].Type != nil && StdType(p.stk.data[len(p.stk.data)-2].Type) && !typeis(p.stk.data[len(p.stk.data)-2].Type, *types.Alias) && !typeis(p.stk.data[len(p.stk.data)-1].Type, *TypeType)
+//@ requires imp(src != nil, len(src) >= 1)
+//@ ensures len(p.stk.data) == old(len(p.stk.data)) - 1 && forall(i, 0, len(p.stk.data) - 1, p.stk.data[i] == old(p.stk.data[i]))
+//@ ensures fresh(p.stk.data[len(p.stk.data)-1]) && typeis(p.stk.data[len(p.stk.data)-1].Val, *ast.IndexExpr) && p.stk.data[len(p.stk.data)-1].Val.(*ast.IndexExpr).Index == old(p.stk.data[len(p.stk.data)-1].Val)
+//@ ensures imp(!(typeis(IdxU(old(p.stk.data[len(p.stk.data)-2].Type)), *types.Interface)), p.stk.data[len(p.stk.data)-1].Val.(*ast.IndexExpr).X == old(p.stk.data[len(p.stk.data)-2].Val))
+//@ ensures[C03] imp(lhs != 2, p.stk.data[len(p.stk.data)-1].Type == IndexElemType(IdxU(old(p.stk.data[len(p.stk.data)-2].Type))))
+//@ ensures[C03] imp(lhs == 2, typeis(p.stk.data[len(p.stk.data)-1].Type, *types.Tuple) && (typeis(IdxU(old(p.stk.data[len(p.stk.data)-2].Type)), *types.Map) || typeis(IdxU(old(p.stk.data[len(p.stk.data)-2].Type)), *types.Interface)))
+
+//@ func (*CodeBuilder).emitMapStringAnyAssert
+//@ trusted
+//@ assigns heapexcept([]*internal.Elem; field:internal.Stack.data; field:internal.Elem.Val; field:internal.Elem.Type)
+//@ tensures result != nil
+
+// the interface type behind a type (through named types and aliases): ok iff the underlying type is an interface and
+// the type is not a type parameter (Go: no type assertion on a type-parameter value)
+//@ func (*CodeBuilder).checkInterface
+//@ prop C01 C03
+//@ readonly
+//@ requires typ != nil && StdType(typ)
+//@ loop 0 invariant typ != nil && StdType(typ) && Resolve(typ) == Resolve(entry(typ)) && typeis(types.Unalias(typ), *types.TypeParam) == typeis(types.Unalias(entry(typ)), *types.TypeParam)
+//@ ensures result1 == (typeis(Resolve(typ), *types.Interface) && !typeis(types.Unalias(typ), *types.TypeParam))
+//@ ensures imp(result1, result0 != nil && asI(result0, types.Type) == Resolve(typ)) && imp(!result1, result0 == nil)
+
+// x.(T) (Go spec "Type assertions"): accepted only for an operand of interface type and a type that can implement it;
+// the operand is replaced by the assertion over its expression and the type expression built for T; the result has
+// type T, or (T, bool) in a two-value context
+//@ func (*CodeBuilder).TypeAssert
+//@ prop C01 C02 C03 C16
+//@ requires PkgWf(p.pkg) && len(p.stk.data) >= 1 && p.stk.data[len(p.stk.data)-1] != nil && p.stk.data[len(p.stk.data)-1].Type != nil && StdType(p.stk.data[len(p.stk.data)-1].Type)
+//@ requires typ != nil && StdType(typ) && imp(src != nil, len(src) >= 1)
+//@ ghostset missingMethod implChecked
+//@ ensures len(p.stk.data) == old(len(p.stk.data)) && forall(i, 0, len(p.stk.data) - 1, p.stk.data[i] == old(p.stk.data[i]))
+//@ ensures[C01] typeis(Resolve(old(p.stk.data[len(p.stk.data)-1].Type)), *types.Interface) && ghost(implChecked)
+//@ ensures fresh(p.stk.data[len(p.stk.data)-1]) && typeis(p.stk.data[len(p.stk.data)-1].Val, *ast.TypeAssertExpr) && p.stk.data[len(p.stk.data)-1].Val.(*ast.TypeAssertExpr).X == old(p.stk.data[len(p.stk.data)-1].Val) && TE(p.stk.data[len(p.stk.data)-1].Val.(*ast.TypeAssertExpr).Type, typ)
+//@ ensures[C03] imp(lhs != 2, p.stk.data[len(p.stk.data)-1].Type == typ) && imp(lhs == 2, typeis(p.stk.data[len(p.stk.data)-1].Type, *types.Tuple))
